@@ -10,6 +10,7 @@ records cross a real serialise / encrypt / decrypt / parse boundary.
 Every decider call is recorded as a line of the `decider` model protocol so that
 each instance's trace can be replayed on the Lean model (per-component tie).
 """
+import os
 import logging
 from typing import Dict, List, Optional, Tuple
 
@@ -343,7 +344,7 @@ class Cluster:
     def crash(self, name):
         self.insts[name].alive = False
         for (s, d) in list(self.net.links):
-            if d == name or s == name:
+            if d == name or (s == name and not os.environ.get("KEEP_FROM")):
                 self.net.links[(s, d)] = []
                 self.net.meta[(s, d)] = []
 
@@ -351,9 +352,11 @@ class Cluster:
         old = self.insts[name]
         old.alive = False
         self.dead.append(old)
-        # whatever was on its way to or from the lost process is gone with it
+        # whatever was on its way to the lost process is gone with it; what it had already handed to the network
+        # is still delivered (before anything its successor sends: the link is first-in first-out), so the crash
+        # sits between two of its outgoing-loop iterations, not inside one
         for (s, d) in list(self.net.links):
-            if d == name or s == name:
+            if d == name:
                 self.net.links[(s, d)] = []
                 self.net.meta[(s, d)] = []
         self.gens[name] += 1
